@@ -80,7 +80,7 @@ func (t *Timer) arm(d time.Duration) {
 	s := S
 	inc := curInc()
 	call(func() {
-		t.ev = s.After(d, func() {
+		t.ev = s.afterTimer(inc, d, func() {
 			t.ev = nil
 			if s.dead[inc] && inc != 0 {
 				return
@@ -160,7 +160,7 @@ type Ticker struct {
 
 func (t *Ticker) schedule() {
 	s := S
-	t.ev = s.After(t.d, func() {
+	t.ev = s.afterTimer(t.inc, t.d, func() {
 		if t.stopped || (s.dead[t.inc] && t.inc != 0) {
 			return
 		}
@@ -239,8 +239,9 @@ func WithTimeout(parent context.Context, d time.Duration) (context.Context, cont
 	dl := time.Unix(0, epochNS()+peekNS()+int64(d)).UTC()
 	var ev *Event
 	s := S
+	inc := curInc()
 	call(func() {
-		ev = s.After(d, func() {
+		ev = s.afterTimer(inc, d, func() {
 			Ephemeral(func() { cancel(context.DeadlineExceeded) })
 		})
 	})
